@@ -80,4 +80,60 @@ theorem parseDeclarator_lexeme (pre w : List Char) (bits : Option (List Char × 
   simp only [m, hloop, hstrip, Option.map_map]
   cases cnt <;> rfl
 
+-- ------------------------------------------------------------------------------------------------ " ".join(type.split())
+/-- words with a non-empty blank string in front of each further word -/
+def typeWords (w0 : List Char) : List (List Char × List Char) → List Char
+  | [] => w0
+  | (sep, w) :: r => w0 ++ sep ++ typeWords w r
+
+theorem splitWordsGo_word : ∀ (w cur rest : List Char), w.all isWord = true →
+    splitWordsGo cur (w ++ rest) = splitWordsGo (w.reverse ++ cur) rest
+  | [], _, _, _ => rfl
+  | c :: w, cur, rest, h => by
+    simp only [List.all_cons, Bool.and_eq_true] at h
+    simp only [List.cons_append, splitWordsGo, isWs_of_word c h.1, Bool.false_eq_true, if_false]
+    rw [splitWordsGo_word w (c :: cur) rest h.2]
+    simp
+
+theorem splitWordsGo_blank : ∀ (s rest : List Char), blank s = true → splitWordsGo [] (s ++ rest) = splitWordsGo [] rest
+  | [], _, _ => rfl
+  | c :: s, rest, h => by
+    simp only [blank, List.all_cons, Bool.and_eq_true] at h
+    simp only [List.cons_append, splitWordsGo, isWs_of_wsA c h.1, if_true, List.isEmpty_nil]
+    exact splitWordsGo_blank s rest (by simpa [blank] using h.2)
+
+theorem splitWords_typeWords : ∀ (more : List (List Char × List Char)) (w0 : List Char), isWordStr w0 = true →
+    (∀ p ∈ more, blank p.1 = true ∧ p.1 ≠ [] ∧ isWordStr p.2 = true) →
+    splitWords (typeWords w0 more) = w0 :: more.map (·.2)
+  | [], w0, h0, _ => by
+    simp only [isWordStr, Bool.and_eq_true, Bool.not_eq_true', List.isEmpty_eq_false_iff] at h0
+    have := splitWordsGo_word w0 [] [] h0.2
+    simp only [List.append_nil] at this
+    simp [splitWords, typeWords, this, splitWordsGo, h0.1]
+  | (sep, w) :: r, w0, h0, hm => by
+    have hp := hm (sep, w) (by simp)
+    have ih := splitWords_typeWords r w hp.2.2 (fun p hp' => hm p (by simp [hp']))
+    simp only [isWordStr, Bool.and_eq_true, Bool.not_eq_true', List.isEmpty_eq_false_iff] at h0
+    obtain ⟨c, s', hs⟩ := List.exists_cons_of_ne_nil hp.2.1
+    have hs : sep = c :: s' := hs
+    subst hs
+    have hb : isWsA c = true ∧ s'.all isWsA = true := by
+      have := hp.1
+      simpa [blank] using this
+    have hc : isWs c = true := isWs_of_wsA c hb.1
+    have hs' : blank s' = true := by simpa [blank] using hb.2
+    have hne : (w0.reverse ++ []).isEmpty = false := by simp [h0.1]
+    simp only [splitWords] at ih ⊢
+    simp only [typeWords, List.append_assoc, List.cons_append]
+    rw [splitWordsGo_word w0 [] _ h0.2]
+    simp only [splitWordsGo, hc, if_true, hne, Bool.false_eq_true, if_false]
+    rw [splitWordsGo_blank s' _ hs', ih]
+    simp
+
+/-- the base type of an enum as the handler spells it: the words joined by single blanks, whatever blanks separate them -/
+theorem normType_typeWords (more : List (List Char × List Char)) (w0 : List Char) (h0 : isWordStr w0 = true)
+    (hm : ∀ p ∈ more, blank p.1 = true ∧ p.1 ≠ [] ∧ isWordStr p.2 = true) :
+    normType (typeWords w0 more) = joinBlank (w0 :: more.map (·.2)) := by
+  rw [normType, splitWords_typeWords more w0 h0 hm]
+
 end Cstruct.DefParser.C13
